@@ -207,6 +207,65 @@ func buildTriIndexes(tris []*model3d.Triangle) []triIndex {
 	return out
 }
 
+
+// ---- two hierarchies built over the same child ----
+//
+// A joined collider that is built from an existing one may flatten it; a second hierarchy built from the same
+// child must not disturb the first. For every triangle set (as a child index of each constructor) and every pair
+// of extra triangles: parent A = NewJoinedCollider(child, extraA) is queried, parent B = NewJoinedCollider(child,
+// extraB) is built, and A must still give the linear-scan answers over child + extraA (and B over child + extraB).
+func checkSharedChild(r *ev.Run, set []int) {
+	tris := make([]*model3d.Triangle, len(set))
+	for i, k := range set {
+		t := triAlphabet[k]
+		tris[i] = &model3d.Triangle{t[0], t[1], t[2]}
+	}
+	extras := []*model3d.Triangle{
+		{xyz(0.5, 0.5, 0.25), xyz(1.5, 0.5, 0.5), xyz(0.5, 1.5, 0.75)},
+		{xyz(0.25, 1.25, 0.5), xyz(1.75, 1.5, 0.25), xyz(1, 0.25, 0.9)},
+		{xyz(3, 3, 3), xyz(4, 3, 3), xyz(3, 4, 3.5)}, // outside the child's bounds
+	}
+	scan := func(ts []*model3d.Triangle, ray *model3d.Ray) (int, float64) {
+		n, first := 0, math.Inf(1)
+		for _, t := range ts {
+			t.RayCollisions(ray, func(rc model3d.RayCollision) {
+				n++
+				first = math.Min(first, rc.Scale)
+			})
+		}
+		return n, first
+	}
+	for _, child := range buildTriIndexes(tris) {
+		for ea := range extras {
+			for eb := range extras {
+				if ea == eb {
+					continue
+				}
+				a := model3d.NewJoinedCollider([]model3d.Collider{child.mc, extras[ea]})
+				b := model3d.NewJoinedCollider([]model3d.Collider{child.mc, extras[eb]})
+				for pi, parent := range []*model3d.JoinedCollider{a, b} {
+					own := append(append([]*model3d.Triangle{}, tris...), extras[[]int{ea, eb}[pi]])
+					for oi, o := range rayOrigins {
+						for di := oi % 5; di < len(rayDirs); di += 5 {
+							ray := &model3d.Ray{Origin: o, Direction: rayDirs[di]}
+							r.Eval(1)
+							wn, wf := scan(own, ray)
+							gn := parent.RayCollisions(ray, nil)
+							gf, ok := parent.FirstRayCollision(ray)
+							if gn != wn || ok != (wn > 0) || (ok && gf.Scale != wf) {
+								r.Violation("NewJoinedCollider/shared-child", fmt.Sprintf("triangles %v as %s: parent %d of two built over this child (extras %d and %d): ray %v -> %v gives %d collisions, first %v %g; linear scan %d, first %g",
+									set, child.name, pi, ea, eb, o, ray.Direction, gn, ok, gf.Scale, wn, wf), qcase{"NewJoinedCollider(shared child)", set, "rays", [][]float64{arr(o), arr(ray.Direction)}})
+								return
+							}
+						}
+					}
+				}
+			}
+		}
+	}
+	r.NontrivialAdd(1)
+}
+
 func checkPermutation(r *ev.Run, what string, in, out []*model3d.Triangle, set []int) {
 	cnt := map[*model3d.Triangle]int{}
 	for _, t := range in {
@@ -830,6 +889,8 @@ func main() {
 			checkPointSet2(r, c.Objects)
 		case len(c.Index) > 3 && c.Index[:3] == "2d.":
 			checkSegSet(r, c.Objects)
+		case c.Index == "NewJoinedCollider(shared child)":
+			checkSharedChild(r, c.Objects)
 		case c.Query == "Cast":
 			checkObjSet(r, c.Objects, objAlphabet())
 		default:
@@ -855,6 +916,15 @@ func main() {
 		}
 		ev.Parallel(len(sets), 0, func(i int) { checkTriSet(r, sets[i], stride) })
 		r.Set("triangle_sets", len(sets))
+		// two parents over one child: sets of 2..6 triangles (the capacity of the child's list matters)
+		var shared [][]int
+		multisets(len(triAlphabet), 6, func(s []int) {
+			if len(s) >= 2 && (len(s) <= 4 || r.Thorough() || len(shared)%7 == 0) {
+				shared = append(shared, append([]int{}, s...))
+			}
+		})
+		ev.Parallel(len(shared), 0, func(i int) { checkSharedChild(r, shared[i]) })
+		r.Set("shared_child_sets", len(shared))
 		r.Sample(qcase{"MeshToCollider", []int{0, 3, 5}, "RayCollisions", [][]float64{{-1, 0, 0}, {1, 0, 0}}})
 	})
 	r.Isolate("points", func() {
